@@ -141,10 +141,10 @@ def classify_render(inst, out: str) -> str:
     h = inst.rendered_height
     if h < 2:
         return "?height"
-    if type(type(inst)) is not T2.ITerm2ImageMeta and "\x1b_G" in out:
+    if not isinstance(type(inst), T2.ITerm2ImageMeta) and "\x1b_G" in out:
         n = out.count("a=T")
         return "lines" if n == h else "whole" if n == 1 else f"?{n}"
-    if type(type(inst)) is T2.ITerm2ImageMeta:
+    if isinstance(type(inst), T2.ITerm2ImageMeta):
         n = out.count("\x1b]1337;File=")
         if n == h:
             return "lines"
@@ -159,7 +159,7 @@ def classify_render(inst, out: str) -> str:
 def classify_stream(inst, out: str) -> str:
     """Which render method produced the frames of one loop of a `draw()` animation."""
     h = inst.rendered_height
-    iterm = type(type(inst)) is T2.ITerm2ImageMeta
+    iterm = isinstance(type(inst), T2.ITerm2ImageMeta)
     n = out.count("\x1b]1337;File=") if iterm else out.count("a=T")
     if n == h * N_FRAMES:
         return "lines"
@@ -254,7 +254,7 @@ class World:
 
     def is_iterm(self, obj):
         cls = obj if isinstance(obj, type) else type(obj)
-        return type(cls) is T2.ITerm2ImageMeta
+        return isinstance(cls, T2.ITerm2ImageMeta)  # incl. user metaclasses derived from it
 
     def get(self, k, obj):
         if k == "rm":
@@ -290,7 +290,9 @@ class World:
             self.parent[len(self.classes)] = int(f[1])
             self.fam[len(self.classes)] = self.fam[int(f[1])]
             self.names.append(f"U{len(self.classes)}")
-            self.classes.append(type(f"U{len(self.classes)}", (p,), body))
+            # `nc,<p>,<d>,m`: `class M(type(Parent)): pass; class U(Parent, metaclass=M): ...`
+            meta = type(f"M{len(self.classes)}", (type(p),), {}) if len(f) > 3 else type(p)
+            self.classes.append(meta(f"U{len(self.classes)}", (p,), body))
             return f"c{len(self.classes) - 1}"
         if f[0] == "ni":
             cls = self.classes[int(f[1])]
@@ -606,7 +608,10 @@ class Gen:
                 d = S(rng.choice(sorted(METHODS[fam])))
                 own_default.add(ncls)
                 shape_flags.add("own-default")
-            ops.append(f"nc,{p},{d}")
+            derived = rng.random() < 0.15
+            if derived:
+                shape_flags.add("derived-metaclass")
+            ops.append(f"nc,{p},{d}" + (",m" if derived else ""))
             parent[ncls] = p
             if p in concrete:
                 concrete.add(ncls)
@@ -746,6 +751,31 @@ def entry_family(n_lib, kitty, iterm):
     return out
 
 
+def nam_family(n_lib, lib_index):
+    """the global native-animation limit: set / reset through EVERY class of a tree that has a subclass
+    with a derived metaclass (M), its plain descendant, a plain sibling and a derived metaclass further
+    down; read through every class and instance after each (the dump).  The same tree under KittyImage
+    (derived from ImageMeta) only checks that the four settings are untouched by the metaclass."""
+    out = []
+    iterm, kitty = lib_index
+    a, b, c, d = n_lib, n_lib + 1, n_lib + 2, n_lib + 3
+    head = [f"nc,{iterm},-,m", f"nc,{a},-", f"nc,{iterm},-", f"nc,{c},-,m", f"ni,{b}", f"ni,{c}", f"ni,{d},s", f"ni,{iterm}"]
+    classes = [iterm, a, b, c, d]
+    for setter in classes:
+        for resetter in classes:
+            ops = list(head) + ["dump", f"set,na,c{setter},i{4096 + setter}", "dump", f"get,na,c{iterm}", "get,na,i0",
+                                f"set,na,c{resetter},i{7 + resetter}", "dump", f"del,na,c{resetter}", "dump",
+                                f"set,na,c{setter},i0", "dump", f"set,na,i1,i5", f"del,na,i2", "dump"]
+            out.append((ops, "global-limit/derived-metaclass"))
+    head = [f"nc,{kitty},-,m", f"nc,{a},-", f"nc,{kitty},-", f"ni,{b}", f"ni,{c}"]
+    for k, v1, v2 in (("rm", S("whole"), "N"), ("fs", "b1", "b0")):
+        for x in (kitty, a, b, c):
+            ops = list(head) + [f"set,{k},c{x},{v1}", "dump", f"set,{k},c{a},{v1}", "dump", f"set,{k},c{x},{v2}", "dump",
+                                "rend,0,N,anim", "rend,1,N,iter"]
+            out.append((ops, "derived-metaclass/kitty"))
+    return out
+
+
 def exhaustive(n_lib, root, k, depth):
     """every sequence of `depth` operations from {set v1, set v2, unset} x {root, A(root), B(A), instance of B}
     for one setting, each followed by a dump, with a render of the instance at the end"""
@@ -854,7 +884,8 @@ class C20(Property):
     # -- generator --------------------------------------------------------------------
     def generate(self, rng: random.Random, tier: str):
         g = Gen(rng)
-        for ops, kind in targeted(g.n_lib, g.kitty, g.iterm) + entry_family(g.n_lib, g.kitty, g.iterm):
+        for ops, kind in targeted(g.n_lib, g.kitty, g.iterm) + entry_family(g.n_lib, g.kitty, g.iterm) + \
+                nam_family(g.n_lib, (g.iterm, g.kitty)):
             yield Case("run " + " ".join(ops), {"ops": ops}, kind, True)
         small = [(g.kitty, "rm", 2), (g.iterm, "jq", 2)] if tier == "quick" else \
             [(g.kitty, "rm", 4), (g.iterm, "rm", 3), (g.iterm, "jq", 3), (g.iterm, "rf", 3)]
@@ -904,6 +935,7 @@ class C20(Property):
         g = Gen(rng)
         out = []
         hist = targeted(g.n_lib, g.kitty, g.iterm) + entry_family(g.n_lib, g.kitty, g.iterm) + \
+            nam_family(g.n_lib, (g.iterm, g.kitty)) + \
             [g.history() for _ in range(3000)]
         for ops, _ in hist:
             res, snaps, w = execute(ops)
